@@ -3,6 +3,8 @@ package checks
 import (
 	"bytes"
 	"fmt"
+	"free5gclib/aper"
+	"free5gclib/ngap/ngapType"
 	"math/rand"
 	"os"
 	"os/exec"
@@ -240,6 +242,89 @@ func insertConsistent(b []byte, l1Size int, ie ieSpan, off int, run []byte, repl
 	return append(append(append([]byte(nil), b[:3]...), putLenDet(len(body))...), body...)
 }
 
+// c14SizeClassProbe: a decoder that copies an open-type value gets a buffer whose CAPACITY is the next allocator size
+// class; reading one octet past a claimed length goes unnoticed in that slack unless the length IS a size class. The
+// probe therefore builds a TRACE START whose last IE ends in an extensible BIT STRING of the extension range, long
+// enough to be fragmented and not a whole number of octets, sized so that the IE value is one octet longer than a size
+// class of the Go allocator between 2 and 4 KiB, and then claims one octet less (enclosing lengths consistent).
+func c14SizeClassProbe(o *fw.Outcome, r *rand.Rand) bool {
+	build := func(bits int) []byte {
+		var pdu ngapType.NGAPPDU
+		pdu.Present = 1
+		pdu.InitiatingMessage = &ngapType.InitiatingMessage{}
+		pdu.InitiatingMessage.ProcedureCode.Value = 39 // id-TraceStart
+		pdu.InitiatingMessage.Criticality.Value = 1
+		pdu.InitiatingMessage.Value.Present = ngapType.InitiatingMessagePresentTraceStart
+		ts := &ngapType.TraceStart{}
+		pdu.InitiatingMessage.Value.TraceStart = ts
+		for _, id := range []int64{10, 85, 108} {
+			ie := ngapType.TraceStartIEs{}
+			ie.Id.Value = id
+			switch id {
+			case 10:
+				ie.Value.Present, ie.Value.AMFUENGAPID = ngapType.TraceStartIEsPresentAMFUENGAPID, &ngapType.AMFUENGAPID{Value: 1}
+			case 85:
+				ie.Value.Present, ie.Value.RANUENGAPID = ngapType.TraceStartIEsPresentRANUENGAPID, &ngapType.RANUENGAPID{Value: 1}
+			default:
+				ta := &ngapType.TraceActivation{}
+				ta.NGRANTraceID.Value = make([]byte, 8)
+				ta.InterfacesToTrace.Value = aper.BitString{Bytes: []byte{0xff}, BitLength: 8}
+				b := make([]byte, (bits+7)/8)
+				r.Read(b)
+				if rem := bits % 8; rem != 0 {
+					b[len(b)-1] &= 0xff << (8 - uint(rem))
+				}
+				ta.TraceCollectionEntityIPAddress.Value = aper.BitString{Bytes: b, BitLength: uint64(bits)}
+				ie.Value.Present, ie.Value.TraceActivation = ngapType.TraceStartIEsPresentTraceActivation, ta
+			}
+			ts.ProtocolIEs.List = append(ts.ProtocolIEs.List, ie)
+		}
+		enc, err := per.Marshal(pdu, pduTag)
+		if err != nil {
+			return nil
+		}
+		return enc
+	}
+	lastIE := func(b []byte) (l1Size int, ie ieSpan, ok bool) {
+		_, l1Size, ies, good := ngapIEs(b)
+		if !good || len(ies) == 0 {
+			return 0, ieSpan{}, false
+		}
+		return l1Size, ies[len(ies)-1], true
+	}
+	for _, class := range []int{2304, 2688, 3072, 3200, 3456, 4096} {
+		b0 := 16384 + 1 + r.Intn(7)
+		enc0 := build(b0)
+		_, ie0, ok := lastIE(enc0)
+		if enc0 == nil || !ok {
+			o.Inconcl("reference could not build the size-class probe")
+			return false
+		}
+		enc := build(b0 + 8*(class+1-ie0.valLen))
+		l1Size, ie, ok := lastIE(enc)
+		if enc != nil && ok && ie.valLen != class+1 { // a length determinant grew on the way: one more step
+			enc = build(b0 + 8*(class+1-ie0.valLen) + 8*(class+1-ie.valLen))
+			l1Size, ie, ok = lastIE(enc)
+		}
+		if enc == nil || !ok || ie.valLen != class+1 || ie.valStart+ie.valLen != len(enc) {
+			o.Count("size_class_probes_not_built", 1)
+			continue
+		}
+		if !decodeMonitored(o, enc, fmt.Sprintf("TRACE START with an address of the extension range, IE value of %d octets", ie.valLen)) {
+			return false
+		}
+		for cut := 1; cut <= 2; cut++ { // the claimed lengths say class (class-1) octets, the content is cut to match
+			body := append(append(append([]byte(nil), enc[3+l1Size:ie.lenPos]...), putLenDet(ie.valLen-cut)...), enc[ie.valStart:ie.valStart+ie.valLen-cut]...)
+			short := append(append(append([]byte(nil), enc[:3]...), putLenDet(len(body))...), body...)
+			o.Count("size_class_probes", 1)
+			if !decodeMonitored(o, short, fmt.Sprintf("TRACE START cut %d octet(s) short, IE value length %d = allocator size class", cut, ie.valLen-cut)) {
+				return false
+			}
+		}
+	}
+	return true
+}
+
 func runC14(c *fw.Case) (o fw.Outcome) {
 	r := c.R
 	ms := ngapMessages()
@@ -306,6 +391,9 @@ func runC14(c *fw.Case) (o fw.Outcome) {
 			}
 		}
 		o.Tag("family:extension-range-seeds")
+		if !c14SizeClassProbe(&o, r) {
+			return
+		}
 	case 0: // prefixes
 		stride := 1
 		if len(base) > 200 {
